@@ -133,6 +133,19 @@ func init() {
 		},
 	})
 	register(&Property{
+		ID: "C10",
+		Explanation: "Termination itself is NOT decided. Decided are the mechanisms that make it true: (R1) in matchStartLoop the zero-width check dominates every start of a further iteration, and on a zero-width iteration the only effect is BACKTRACK and return; the recorded start is only ever len(currentMatch); (R2) matchEndNotIn advances only when the offset changed across CONSUME; (R3) every instruction handler and every MATCH* primitive moves the state (NEXT/JUMP/RETURN/BACKTRACK/FAIL) on every returning path (must-analysis over the CFG, greatest fixpoint over the primitives); (R4) the outer scan advances (scan discipline); (R5) loop identity compares loop id and call depth. " +
+			"Does NOT decide weakened-but-present guards, the inner loops of MATCHWHOLELINE/WORD, nor recursion that consumes nothing (excluded by the property).",
+		Assumptions: commonAssumptions,
+		Rules: []RuleFn{
+			{Name: "C10.R1", Run: func(c *Ctx) { ruleZeroWidthGuard(c, "C10.R1") }},
+			{Name: "C10.R2", Run: func(c *Ctx) { ruleNotInProgress(c, "C10.R2") }},
+			{Name: "C10.R3", Run: func(c *Ctx) { ruleHandlersMove(c, "C10.R3") }},
+			{Name: "C10.R4", Run: func(c *Ctx) { ruleScanDiscipline(c, "C10.R4") }},
+			{Name: "C10.R5", Run: func(c *Ctx) { ruleLoopIdentity(c, "C10.R5") }},
+		},
+	})
+	register(&Property{
 		ID: "C11",
 		Explanation: "Decides that the evaluator implements the documented operator/coercion table: (R1) for every documented cell the leaf of executeBinaryExpr, extracted by partial evaluation over the tag domain (operator x operand types), reads both operands through the accessor of the left operand's type, applies the documented Go operator and builds the documented result type; the oracle is the Type Coersion table of docs/language/LanguageDetails.md, parsed on every run; " +
 			"(R2) the nine coercion accessors compute the documented conversions; (R3) the Pratt parser's binding powers give the documented precedence levels and left associativity; (R4) not/head/tail. " +
